@@ -134,6 +134,58 @@ func init() {
 	})
 }
 
+func msgJobs(meta map[string]int, pkg, h string, extra ...interface{}) []Job {
+	var js []Job
+	for i := 0; i < meta["nmsgs"]; i++ {
+		kv := append([]interface{}{"gmn", meta[fmt.Sprintf("msg_%d", i)]}, extra...)
+		js = append(js, job(pkg, h, kv...))
+	}
+	return js
+}
+
+func init() {
+	reg(&CheckDef{
+		ID:   "C01",
+		Meta: "fit.Hmeta",
+		Jobs: func(tier string, meta map[string]int) []Job {
+			allstr := 0
+			if tier == "thorough" {
+				allstr = 1
+			}
+			js := msgJobs(meta, "fit", "H01a", "allstr", allstr)
+			js = append(js, job("fit", "H01a", "gmn", 0xFFF0, "allstr", allstr)) // a message number the profile does not know
+			return js
+		},
+		MustReach: []string{"decoded", "rejected", "C01.field.consumed-size"},
+		Bounds: map[string]interface{}{
+			"quick": "H01a: every single-field definition, exhaustively: each of the profile's message numbers (from the tree) plus one unknown number x all 256 field numbers x all 256 base-type bytes x all sizes 0-255 x both byte orders x all data bytes",
+		},
+		Assumptions: commonAssumptions,
+	})
+}
+
+func init() {
+	reg(&CheckDef{
+		ID: "C18",
+		Jobs: func(tier string, meta map[string]int) []Job {
+			var js []Job
+			for _, h := range []string{"H18lap", "H18session", "H18seglap", "H18event", "H18record", "H18acc", "H18seq", "H18seg"} {
+				js = append(js, job("fit", h))
+			}
+			return js
+		},
+		MustReach: []string{"C18.lap.avg-speed", "C18.session.min-altitude", "C18.seglap.min-altitude", "C18.event.gear", "C18.record.csd-distance", "C18.record.others-unchanged", "C18.acc.step", "C18.seq.per-file", "C18.seg.expanded"},
+		Bounds: map[string]interface{}{
+			"quick":    "each of the five expansions from a message whose every integer field is arbitrary (all bit patterns of all sources and destinations); accumulator step from an arbitrary (sum,last,mask) state; sequences: two records in one file then the first record of a second file",
+			"thorough": "same",
+		},
+		Outside: []string{"streams longer than the stated sequence: by induction on the accumulator step (paper argument)",
+			"expansions of messages the property does not name (hr, ant_rx, ant_tx, exd_*, segment_point)",
+			"chained expansion (compressed speed -> speed -> enhanced_speed) is not required by the property and not asserted"},
+		Assumptions: commonAssumptions,
+	})
+}
+
 // ---------------------------------------------------------------- mutants
 
 type Mutant struct {
